@@ -64,6 +64,16 @@ def call(eng, node, st):
             return cb
     if name in ("all", "any") and len(node.args) == 1 and isinstance(node.args[0], (ast.GeneratorExp, ast.ListComp)):
         return quant_genexp(eng, node.args[0], st, name == "all")
+    if name == "type" and len(node.args) == 1 and not node.keywords:
+        # type(x) of a modelled value: integers are `int` (the sorts "Seq" / "Perm" hold plain ints), booleans `bool`
+        v = eng.ev(node.args[0], st)
+        if isinstance(v, BoolV) or isinstance(v, bool):
+            return ObjV("type", {"name": "bool"})
+        if isinstance(v, (IntV, int)):
+            return ObjV("type", {"name": "int"})
+        if isinstance(v, SeqV) and v.kind == "Perm":
+            return ObjV("type", {"name": "Perm"})
+        raise Unsupported(f"type() of {v!r}")
     if name == "max" and len(node.args) == 1:
         am = _argmax_enumerate_shape(eng, node, st)
         if am is not None:
